@@ -70,8 +70,40 @@ class Validation:
                 self.stuck = (int(m.group(1)), _tuples(m.group(2)))
 
 
-def validate(ck, cfg, trace_path, timeout=1500):
-    r = ck.tlc_validate("TraceShard", cfg, trace_path, timeout=timeout)
+WORLD_PROBE = [{"wc": False, "batch": 2, "steps": [
+    {"op": "Put", "a": 3, "c": 0, "ids": [], "crash": 0, "fail": 0},
+    {"op": "Mark", "c": 1, "ids": [3], "mk": "def"},
+    {"op": "Delete", "a": 0, "c": 1, "ids": [1], "crash": 0, "fail": 0},
+    {"op": "Put", "a": 3, "c": 0, "ids": [], "crash": 0, "fail": 0}]}]
+
+
+def detect_world(ck, binp):
+    """Which of the already repaired / still as-is variants of unrelated, separately tracked defects does this tree have?
+    BugH11 (C02, family A): does DB.put re-index an already stored garbage-marked object?  Probe on real code: put a
+    tombstone, garbage-mark it, delete its target's metadata (drops the target's garbage key), put the tombstone again:
+    the target's garbage key is back iff the tree re-indexes."""
+    tp, info = run_scripts(ck, binp, WORLD_PROBE, name="worldprobe")
+    ev = vkit.read_ndjson(tp)
+    world = {"BugH11": bool(ev[-1]["st"]["g"][0])}
+    ck.setcov("tree_variant", world)
+    ck.log("tree variant: %s" % world)
+    return world
+
+
+def cfg_files(world, *cfgs):
+    """scratch copies of the cfg files with the deviation switches of `world` (the committed cfgs carry the defaults)"""
+    out = {}
+    for c in cfgs:
+        t = open(os.path.join(vkit.SPEC, c)).read()
+        for k, v in world.items():
+            t = re.sub(r"(?m)^(\s*%s\s*=\s*)\w+" % k, lambda m: m.group(1) + ("TRUE" if v else "FALSE"), t)
+        out[c] = t
+    return out
+
+
+def validate(ck, cfg, trace_path, timeout=1500, world=None):
+    files = cfg_files(world, cfg) if world else None
+    r = ck.tlc_validate("TraceShard", cfg, trace_path, timeout=timeout, files=files)
     return Validation(r, vkit.read_ndjson(trace_path))
 
 
